@@ -92,6 +92,13 @@ func (vm *VotingMachine) verifyCert(cert hotstuff.PartialCert, block *hotstuff.B
 		vm.logger.Infof("vote could not be verified: %v", err)
 		return
 	}
+	// A vote is a single replica's signature. A vote carrying several signatures would be counted
+	// once here but contribute all its signers to the QC, so that combining it with the honest
+	// votes of those signers fails and no QC can be formed for the block.
+	if n := cert.Signature().Participants().Len(); n != 1 {
+		vm.logger.Infof("ignoring vote with %d signatures from %d", n, cert.Signer())
+		return
+	}
 	vm.mut.Lock()
 	defer vm.mut.Unlock()
 	// this defer will clean up any old votes in verifiedVotes
